@@ -698,6 +698,29 @@ func (c *Ctx) genC10() {
 			}
 		}
 	}
+	// (iii-b) what a conforming peer may omit: rsa-oaep (both identifiers) without a DigestMethod element means SHA-1
+	{
+		pub := c.key("sp").Cert.PublicKey.(*rsa.PublicKey)
+		for _, d := range blockCiphers() {
+			if d.uri == uriGCM {
+				continue
+			}
+			for _, kt := range []string{uriOAEP, uriOAEP11} {
+				for _, certKind := range []string{"", "match"} {
+					ck := c.randBytes(d.bc.KeySize())
+					p := []byte("<a>digest method omitted</a>")
+					if refBlock(ck, d.bs) == nil {
+						continue
+					}
+					ct := refCBCEncrypt(ck, d.bs, c.randBytes(d.bs), p)
+					wrapped, _ := rsa.EncryptOAEP(sha1.New(), &detReader{c: c}, pub, ck, nil)
+					ls := []xLayer{{alg: sp(d.uri), cipher: "v", ct: ct}, {alg: sp(kt), digest: nil, cert: certKind, cipher: "v", ct: wrapped}}
+					c.count("c10-digest-omitted", d.name)
+					c.xdecrypt(xKey{kind: "r", id: 1}, ls, p, "oaep-digest-omitted:"+d.name)
+				}
+			}
+		}
+	}
 	// (iv-a) AES-128-GCM decryption of what a conforming peer sends (no padding): every length 0..4 blocks+1, and at the
 	// block-aligned lengths every kind of final byte (a value that looks like padding, zero, large)
 	for n := 0; n <= 65; n++ {
@@ -759,7 +782,31 @@ func (c *Ctx) genC10() {
 	_ = crypto.SHA1
 }
 
+// spLevelDecrypt: the pre-authentication reachability of C11 — the same totality through the ServiceProvider's own entry points,
+// for the key values a ServiceProvider can hold (RSA, ECDSA, none)
+func (c *Ctx) spLevelDecrypt() {
+	now := ms(baseTime)
+	for _, rsig := range []string{"none", "idp"} {
+		for _, entry := range []string{"xml", "post"} {
+			for _, spKey := range []string{"", "ec", "none"} {
+				for _, wrap := range []string{"e", "b", "b-empty", "b-key-empty", "b-3des-pad09", "b-3des-pad16", "b-noroot-empty"} {
+					cfg := baseCfg()
+					r := baseResp(cfg, now)
+					r.Sig = rsig
+					r.Entries[0].Wrap = wrap
+					if spKey != "" && wrap == "e" {
+						r.Entries[0].Wrap = "b-spkey"
+					}
+					c.count("c11-sp-level", "key="+spKey+"/"+wrap)
+					c.runSP(spCase{cfg: cfg, now: now, ids: []string{"id-req1"}, url: cfg.Acs, r: r, lex: 0, entry: entry, spKey: spKey})
+				}
+			}
+		}
+	}
+}
+
 func (c *Ctx) genC11() {
+	defer c.spLevelDecrypt()
 	// exhaustive cipher-value lengths 0..4 blocks+1, toy cipher (byte exact) and every registered algorithm (ledger)
 	for _, bs := range []int{8, 16} {
 		for n := 0; n <= 4*bs+1; n++ {
